@@ -18,7 +18,11 @@ TRUSTED = [
     "modelled, not verified: word-at-a-time byte comparison (lcp/lcs/matchLen bit tricks), bitset word layout, DivSufSort internals, Go runtime (append growth, copy/memmove, bounds checks), encoding/json, reflect, slices.Sort",
 ]
 
+QUICK_SCALE = 3   # quick tier: scripts per shard = table value x QUICK_SCALE (exhaustive suites excepted)
+
 def S(suite, quick, thorough, require=(), shards=8, hang="20s"):
+    if "exhaustive" not in suite:
+        quick = min(quick * QUICK_SCALE, thorough)
     return {"suite": suite, "quick": quick, "thorough": thorough, "require": list(require), "shards": shards, "hang": hang}
 
 def O(theorem, module, strength="full", note=""):
